@@ -20,9 +20,9 @@ import real
 from rbacx.core import compiler as rcompiler
 from rbacx.core import policy as rpolicy
 
-NEAR = ["1", 1, 1.0, True, "True", None, "None", "2", 0, False, ""]
+NEAR = ["1", 1, 1.0, True, "True", None, "None", "2", "*", 0, False, ""]
 T_TYPES = ["doc", ["doc", "file"], "*", ["*", "img"], None, 1, ["1", 1]]
-T_IDS = ["<absent>", "1", 1, True, 1.0, "True", None]
+T_IDS = ["<absent>", "1", 1, True, 1.0, "True", None, "*", ["1", "2"], ""]
 R_TYPES = ["doc", "file", "1", 1, None]
 
 
@@ -40,14 +40,14 @@ def target(t, i, attrs=None, key="attrs"):
 def cells(quick: bool):
     # A: type × id
     for t, i in itertools.product(T_TYPES, T_IDS):
-        for rt, rid in itertools.product(R_TYPES, NEAR[:9]):
+        for rt, rid in itertools.product(R_TYPES, NEAR[:10]):
             yield target(t, i), {"type": rt, "id": rid, "attrs": {}}
     # B: attributes
-    specs = [{}] + [{"level": v} for v in NEAR[:8]] + [{"level": [1, "2"]}, {"level": ["1"]}, {"level": [True, None]},
+    specs = [{}] + [{"level": v} for v in NEAR[:8] + [0]] + [{"level": [1, "2"]}, {"level": ["1"]}, {"level": [True, None]},
                                                         {"level": []}, {"level": 1, "tag": "x"}]
     for a in specs:
         for key in ("attrs", "attributes"):
-            for w in NEAR[:9] + ["<missing>", "<noattrs>"]:
+            for w in NEAR[:10] + ["<missing>", "<noattrs>"]:
                 if w == "<missing>":
                     ra = {"other": 1}
                 elif w == "<noattrs>":
